@@ -278,6 +278,8 @@ func c05r4(c *Ctx) {
 			if head != nil {
 				rs := head.AST.(*ast.RangeStmt)
 				if s := f.ObjOf(rs.X); s != nil {
+					// (the list may have been built in a helper's own variable and handed over at its return)
+					s = copySource(f, s)
 					appends, good := 0, true
 					for _, n := range g.Nodes {
 						if n.AST == nil {
